@@ -137,6 +137,15 @@ def run_queries(base, queries, mir, timeout_ms, fast_check, prop, cube_name, kno
     """returns dict with per-query records, violations, known hits, inconclusive reasons"""
     rec = {'cube': cube_name, 'queries': [], 'violations': [], 'known': [], 'inconclusive': [], 'replayed': 0, 'solver_s': 0.0}
     active = {e['signature']: e for e in known_entries}
+    # engine obligations (unwinding assertions, model capacities, no-panic) are discharged together; only if the
+    # disjunction is not unsat are they asked one by one, to name the failing one
+    pre = [q for q in queries if q.kind in ('unwind', 'obligation') or q.name == 'no-panic']
+    if len(pre) > 1:
+        r, model, dt = check_formula(base, z3.Or([q.formula for q in pre]), timeout_ms)
+        rec['solver_s'] += dt
+        if r == 'unsat':
+            for q in pre: rec['queries'].append({'name': q.name, 'kind': q.kind, 'expect': 'unsat', 'verdict': 'unsat', 'solver_s': round(dt / len(pre), 3), 'discharged_jointly': True})
+            queries = [q for q in queries if q not in pre]
     for q in queries:
         listed = [k for k in q.known if k[0] in active]
         f = q.formula
